@@ -133,7 +133,12 @@ def run(lines, out, args):
                 ret = "None"
                 try:
                     v = comp(f[1])
-                    if op == "regU":
+                    nm = f[3] if op == "regU" else f[4] if op == "regA" else ""
+                    if nm.startswith("@"):
+                        v.__component_name__ = nm[1:]           # the name is not passed: it comes from the component
+                    if op == "regU" and nm.startswith("@"):
+                        c.registerUtility(v, ifs[int(f[2])], info=f[4])
+                    elif op == "regU":
                         c.registerUtility(v, ifs[int(f[2])], f[3], f[4])
                     elif op == "unregU":
                         ret = str(c.unregisterUtility(v, ifs[int(f[2])], f[3]))
@@ -144,7 +149,9 @@ def run(lines, out, args):
                         if "@" in toks and v is not None:
                             v.__component_adapts__ = RQ
                             RQ = None
-                        if op == "regA":
+                        if op == "regA" and nm.startswith("@"):
+                            c.registerAdapter(v, RQ, ifs[int(f[3])], info="i")
+                        elif op == "regA":
                             c.registerAdapter(v, RQ, ifs[int(f[3])], f[4], "i")
                         elif op == "unregA":
                             ret = str(c.unregisterAdapter(v, RQ, ifs[int(f[3])], f[4]))
@@ -161,6 +168,8 @@ def run(lines, out, args):
                 finally:
                     if v is not None and "__component_adapts__" in v.__dict__:
                         del v.__component_adapts__
+                    if v is not None and "__component_name__" in v.__dict__:
+                        del v.__component_name__
                 got = "%s [%s]" % (ret, " ".join(events))
             elif op == "reinit":
                 c.__init__(c.__name__, c.__bases__)
